@@ -55,16 +55,13 @@ def ensure_mirdump():
     subprocess.check_call(["cargo", "+nightly", "build", "--offline"], cwd=os.path.join(VERIF, "tools", "mirdump"), env=env)
 
 
-def stoplist_path():
+def stoplist_path(opts=()):
     sys.path.insert(0, VERIF)
     from mirsym import models
-    try:
-        from mirsym import models_syn  # noqa: F401  (registers more models)
-    except ImportError:
-        pass
+    from mirsym import syn_models, harness_models  # noqa: F401  (register more models)
     os.makedirs(BUILD, exist_ok=True)
-    txt = models.stoplist_text()
-    p = os.path.join(BUILD, "stop.txt")
+    txt = models.stoplist_text(opts)
+    p = os.path.join(BUILD, "stop%s.txt" % ("-" + "-".join(sorted(opts)) if opts else ""))
     if not os.path.exists(p) or open(p).read() != txt:
         with open(p, "w") as f:
             f.write(txt)
@@ -78,19 +75,21 @@ def _prep_crate(crate_dir):
         shutil.copy(os.path.join(REPO, "Cargo.lock"), lock)
 
 
-def dump_mir(crate, features=None, force=False, quiet=True):
+def dump_mir(crate, features=None, force=False, quiet=True, opts=()):
     """returns path of the MIR dump json of harness crate `crate` (dir name under harness/)"""
     ensure_mirdump()
     crate_dir = os.path.join(VERIF, "harness", crate)
     _prep_crate(crate_dir)
-    stop = stoplist_path()
-    key = tree_hash([crate_dir, stop, os.path.join(VERIF, "tools", "mirdump", "src")], repo_hash() + str(features))
+    stop = stoplist_path(opts)
+    key = tree_hash([crate_dir, stop, os.path.join(VERIF, "tools", "mirdump", "src"), os.path.join(VERIF, "harness", "common")],
+                    repo_hash() + str(features) + str(sorted(opts)))
     os.makedirs(os.path.join(BUILD, "mir"), exist_ok=True)
-    out = os.path.join(BUILD, "mir", "%s-%s.json" % (crate, key))
+    tag = crate + ("+" + "+".join(sorted(opts)) if opts else "")
+    out = os.path.join(BUILD, "mir", "%s-%s.json" % (tag, key))
     if os.path.exists(out) and not force:
         return out
     for f in os.listdir(os.path.join(BUILD, "mir")):
-        if f.startswith(crate + "-"):
+        if f.startswith(tag + "-"):
             os.unlink(os.path.join(BUILD, "mir", f))
     env = dict(os.environ)
     env.update({
